@@ -1374,7 +1374,8 @@ func (x *Exec) callFuncValue(s *State, in *ssa.Call, fexpr ssa.Value, fv Val, ar
 	if cl, ok := fexpr.(*ssa.Call); ok {
 		if sc := cl.Call.StaticCallee(); sc != nil {
 			if fc := x.p.Ctr.Fields["result "+x.p.Names[sc]]; fc != nil {
-				return x.applyContract(s, in, fc, nil, args, nil, sig)
+				// self is the function value that was returned
+				return x.applyContract(s, in, fc, nil, args, &sval{v: fv, typ: fexpr.Type()}, sig)
 			}
 		}
 	}
